@@ -591,8 +591,26 @@ func cmdExec(args []string) int {
 func runAstgen(workDir, ovJSON string) (string, error) {
 	bin := filepath.Join(workDir, "astgen")
 	env := append(os.Environ(), "GOFLAGS=-mod=mod", "GOPROXY=off", "GOSUMDB=off", "GOTOOLCHAIN=local")
+	genDir := filepath.Join(verifDir, "gen")
+	if repoDir != "/repo" {
+		// the helper module's replace directive names /repo: use a copy that names repoDir
+		genDir = filepath.Join(workDir, "gen")
+		os.MkdirAll(filepath.Join(genDir, "astgen"), 0o755)
+		for _, f := range []string{"go.mod", "go.sum", "astgen/main.go"} {
+			b, err := os.ReadFile(filepath.Join(verifDir, "gen", f))
+			if err != nil {
+				return "", err
+			}
+			if f == "go.mod" {
+				b = []byte(strings.ReplaceAll(string(b), "=> /repo", "=> "+repoDir))
+			}
+			if err := os.WriteFile(filepath.Join(genDir, f), b, 0o644); err != nil {
+				return "", err
+			}
+		}
+	}
 	cmd := exec.Command("go", "build", "-tags", "verif", "-overlay", ovJSON, "-o", bin, "./astgen")
-	cmd.Dir = filepath.Join(verifDir, "gen")
+	cmd.Dir = genDir
 	cmd.Env = env
 	if b, err := cmd.CombinedOutput(); err != nil {
 		return "", fmt.Errorf("building astgen against /repo failed (does the working tree compile?): %v\n%s", err, b)
